@@ -332,11 +332,11 @@ def generic_substitution_rule(ctx, rule):
     gm12 = model.func("apischema.typing._generic_mro")
     rth = model.func("apischema.typing.resolve_type_hints")
     for fi12, what in ((gm12, "base"), (rth, "hint")):
-        subs = [n for n in ast.walk(fi12.node) if isinstance(n, ast.Subscript) and isinstance(n.slice, ast.Call) and dotted(n.slice.func) == "tuple" and n.slice.args and isinstance(n.slice.args[0], ast.GeneratorExp)
-                and "substitution.get(" in norm(n.slice.args[0].elt)]
-        ctx.require(len(subs) >= 1, f"{fi12.qualname}: re-subscription with the substitution not found")
+        subs = [n for n in ast.walk(fi12.node) if isinstance(n, ast.Call) and dotted(n.func) in ("tuple", "list") and n.args and isinstance(n.args[0], (ast.GeneratorExp, ast.ListComp))
+                and "substitution.get(" in norm(n.args[0].elt)]
+        ctx.require(len(subs) >= 1, f"{fi12.qualname}: arguments rebuilt with the substitution not found")
         for sub_ in subs:
-            it = sub_.slice.args[0].generators[0].iter
+            it = sub_.args[0].generators[0].iter
             it_text = norm(it)
             if isinstance(it, ast.Name):
                 defs12 = [norm(a.value) for a in walk_no_nested(fi12.node) if isinstance(a, ast.Assign) and norm(a.targets[0]) == it.id]
